@@ -8,6 +8,8 @@ package c02
 
 import (
 	"fmt"
+	"os"
+	"strings"
 	"runtime"
 	"sync"
 	"sync/atomic"
@@ -413,4 +415,17 @@ func classify(c Case) core.Class {
 var spec = core.Spec[Case]{ID: "C02", Gen: gen, Check: check, Classify: classify}
 
 func TestProp(t *testing.T)   { core.RunProp(t, spec) }
-func TestReplay(t *testing.T) { core.Replay(t, spec) }
+func TestReplay(t *testing.T) {
+	// a hammer case (hammer_test.go) is recognised by its "rounds" field
+	if b, err := os.ReadFile(os.Getenv("VERIF_REPLAY")); err == nil && strings.Contains(string(b), "\"rounds\"") {
+		h := hammerSpec
+		h.Check = func(c HammerCase) *core.Violation {
+			// the window is narrow: give the replay many more rounds
+			c.Rounds *= 100
+			return checkHammer(c)
+		}
+		core.Replay(t, h)
+		return
+	}
+	core.Replay(t, spec)
+}
